@@ -427,6 +427,34 @@ func jobC19(c *rt.Ctx) {
 		c.ClassN("add", len(As))
 		c.ClassN("mul", len(As))
 	}
+	// ---- outputs are fully overwritten (VerifyBatch reuses its scalar slots from chunk to chunk) -----
+	c.Require("dirty-output")
+	for i := range As {
+		if !c.Take() {
+			continue
+		}
+		c.Class("dirty-output")
+		c.Distinct(fmt.Sprintf("dirty %d", i), true)
+		var junk Bignum256
+		for k := 0; k < LimbSize; k++ {
+			junk[k] = Element((uint64(1) << BitsPerLimb) - 1 - uint64(k))
+		}
+		j := (i*13 + 5) % len(As)
+		a, b := lim[i], lim[j]
+		o1, o2, o3, o4, o5 := junk, junk, junk, junk, junk
+		Add(&o1, &a, &b)
+		Mul(&o2, &a, &b)
+		Expand(&o3, ref.ToLE(As[i], 32))
+		ExpandRaw(&o4, ref.ToLE(As[i], 32))
+		Expand(&o5, ref.ToLE(new(big.Int).Mod(As[i], pow2(128)), 16))
+		var f1, f2 Bignum256
+		Add(&f1, &a, &b)
+		Mul(&f2, &a, &b)
+		c.Step(5)
+		if o1 != f1 || o2 != f2 || valueOf(&o3).Cmp(As[i]) != 0 || valueOf(&o4).Cmp(As[i]) != 0 || valueOf(&o5).Cmp(new(big.Int).Mod(As[i], pow2(128))) != 0 || !canonical(&o3) || !canonical(&o5) {
+			c.Violation("C19 dirty-output", fmt.Sprintf("a scalar operation's result depends on the previous content of its output variable (a=%s)", As[i]), map[string]interface{}{"a": As[i].String(), "b": As[j].String()})
+		}
+	}
 	// ---- signed radix-16 recoding ------------------------------------------------------------
 	checkW4 := func(class string, x *Bignum256, val *big.Int, desc string) {
 		var r [64]int8
